@@ -192,6 +192,40 @@ func checkC10(P *Program, r *Result, tier string) {
 				}
 			}
 		}
+		// or a lookup in an immutable package-level table indexed by the id
+		var tabLoad *ssa.UnOp
+		if n == 0 {
+			for _, b := range fn.Blocks {
+				for _, ins := range b.Instrs {
+					ld, ok := ins.(*ssa.UnOp)
+					if !ok || ld.Op != token.MUL {
+						continue
+					}
+					ia, ok := ld.X.(*ssa.IndexAddr)
+					if !ok || sameWidthSource(ia.Index) != ssa.Value(fn.Params[0]) {
+						continue
+					}
+					g, ok := ia.X.(*ssa.Global)
+					if !ok {
+						continue
+					}
+					set, okT := boolTableTrue(P, g)
+					if !okT {
+						okCases, detail = false, "lookup table "+g.Name()+" is not an immutable table of constants"
+						n++
+						continue
+					}
+					tabLoad = ld
+					for k := range set {
+						n++
+						if _, isDecl := decl[k]; !isDecl {
+							okCases = false
+							detail = fmt.Sprintf("table entry %#x is not a declared ProtocolID", k)
+						}
+					}
+				}
+			}
+		}
 		r.add("VALIDATE", shortName(fn), "switch", "every accepted value is a declared ProtocolID constant", P.pos(fn.Pos()), okCases && n > 0, detail)
 		def := false
 		for _, ret := range returnsOf(fn) {
@@ -208,7 +242,10 @@ func checkC10(P *Program, r *Result, tier string) {
 						}
 					}
 				}
-				if all {
+				if all && tabLoad == nil {
+					def = true
+				}
+				if tabLoad != nil && guardedBy(ret, tabLoad, false) {
 					def = true
 				}
 			}
@@ -1481,4 +1518,93 @@ func uint16Written(c *ssa.Call, depth int) ssa.Value {
 		}
 	}
 	return nil
+}
+
+// boolTableTrue: the indices at which an immutable package-level bool array
+// (written only by the package initialiser, with constant indices) holds true.
+func boolTableTrue(P *Program, g *ssa.Global) (map[int64]bool, bool) {
+	arr, ok := deref(g.Type()).Underlying().(*types.Array)
+	if !ok {
+		return nil, false
+	}
+	if b, ok := arr.Elem().Underlying().(*types.Basic); !ok || b.Kind() != types.Bool {
+		return nil, false
+	}
+	out := map[int64]bool{}
+	for fn := range P.AllFuncs {
+		if !inRepo(fn) || fn.Blocks == nil {
+			continue
+		}
+		for _, b := range fn.Blocks {
+			for _, in := range b.Instrs {
+				var ops []*ssa.Value
+				uses := false
+				for _, op := range in.Operands(ops) {
+					if *op == ssa.Value(g) {
+						uses = true
+					}
+				}
+				if !uses {
+					continue
+				}
+				switch x := in.(type) {
+				case *ssa.IndexAddr:
+					// reads anywhere; writes only in init with constant index and value
+					for _, ref := range *x.Referrers() {
+						if st, isSt := ref.(*ssa.Store); isSt && st.Addr == ssa.Value(x) {
+							if !isInitFunc(fn) {
+								return nil, false
+							}
+							ic, ok1 := constInt(x.Index)
+							vc, ok2 := st.Val.(*ssa.Const)
+							if !ok1 || !ok2 || vc.Value == nil || vc.Value.Kind() != constant.Bool {
+								return nil, false
+							}
+							if constant.BoolVal(vc.Value) {
+								out[ic] = true
+							}
+						}
+					}
+				case *ssa.Store:
+					if x.Addr != ssa.Value(g) || !isInitFunc(fn) {
+						return nil, false
+					}
+					// whole-array initialisation from a literal built in a local
+					ld, ok := x.Val.(*ssa.UnOp)
+					if !ok {
+						return nil, false
+					}
+					al, ok := ld.X.(*ssa.Alloc)
+					if !ok {
+						return nil, false
+					}
+					for _, ref := range *al.Referrers() {
+						ia, isIA := ref.(*ssa.IndexAddr)
+						if !isIA {
+							continue
+						}
+						ic, ok1 := constInt(ia.Index)
+						if !ok1 {
+							return nil, false
+						}
+						for _, r2 := range *ia.Referrers() {
+							if st, isSt := r2.(*ssa.Store); isSt {
+								vc, ok2 := st.Val.(*ssa.Const)
+								if !ok2 || vc.Value == nil || vc.Value.Kind() != constant.Bool {
+									return nil, false
+								}
+								if constant.BoolVal(vc.Value) {
+									out[ic] = true
+								}
+							}
+						}
+					}
+				case *ssa.UnOp:
+				default:
+					return nil, false
+				}
+			}
+		}
+	}
+	return out, len(out) > 0
 }
